@@ -29,11 +29,37 @@ class Namespace(typing.Generic[T]):
         "oneliner.expr_transform.PendingComp | oneliner.expr_transform.PendingLambda"
     ]
 
+    # names declared global here that are local names of an enclosing function:
+    # a plain name would read the variable of that function (the lambdas nest)
+    shadowed_global_names: set[str]
+
     def __init__(self, symt: T, stack: list["Namespace"]):
         self.loop_stack = []
         self.comp_stack = []
         self.inner_nsp = []
         self.symt = symt
+
+        self.shadowed_global_names = set()
+        for symbol in symt.get_symbols():
+            if not symbol.is_declared_global():
+                continue
+            for outer in stack:
+                if not isinstance(outer, NamespaceFunction):
+                    continue
+                try:
+                    outer_symbol = outer.symt.lookup(symbol.get_name())
+                except KeyError:
+                    continue
+                if outer_symbol.is_local():
+                    self.shadowed_global_names.add(symbol.get_name())
+                    break
+
+    def _load_global_name(self, name: str) -> expr:
+        return Subscript(
+            value=Call(func=Name(id="globals", ctx=Load()), args=[], keywords=[]),
+            slice=Constant(value=name),
+            ctx=Load(),
+        )
 
     def get_assign(self, name: str, value_expr: expr) -> expr:
         """
@@ -188,6 +214,9 @@ class NamespaceFunction(Namespace[symtable.Function]):
             if name in comp.target_names:
                 return Name(id=name, ctx=Load())
 
+        if name in self.shadowed_global_names:
+            return self._load_global_name(name)
+
         if name in self.inner_nonlocal_names:
             return Subscript(
                 value=self.nonlocal_dict_expr,
@@ -288,6 +317,9 @@ class NamespaceClass(Namespace[symtable.Class]):
         for comp in self.comp_stack:
             if name in comp.target_names:
                 return Name(id=name, ctx=Load())
+
+        if name in self.shadowed_global_names:
+            return self._load_global_name(name)
 
         # inside a lambda or a comprehension the class scope is invisible
         inside_lambda_or_comp = len(self.comp_stack) > 0
